@@ -205,7 +205,13 @@ func (s *gsim) byzCommit() {
 	} else {
 		entries := k.Choose(s.n+4, "byz-entries")
 		for i := 0; i < entries; i++ {
-			switch c := k.Choose(10, "byz-entry-kind"); {
+			switch c := k.Choose(12, "byz-entry-kind"); {
+			case c >= 10 && len(pre) > 0: // a second entry, with a forged signature and another vote, for an authority that is already listed
+				j := k.Choose(len(pre), "byz-forge-second-for")
+				g := garbage
+				g[11] = byte(k.Choose(5, "byz-garbage"))
+				b := s.anyBlock("byz-entry-any-block")
+				add(auth[j].AuthorityID, g, gp.Vote{Hash: b.Hash, Number: uint32(b.Number)})
 			case c <= 1 && len(adv) > 0: // valid, on the target's chain
 				a := adv[k.Choose(len(adv), "byz-key")]
 				v := onTarget("byz-entry-block")
